@@ -262,7 +262,15 @@ func c15Run(c *Ctx) {
 			return fmt.Sprintf("%v", err), nil
 		}
 	case "command-list":
-		word := []string{"", "zzz", "c0"}[r.Intn(3)]
+		word := []string{"", "zzz", "c0", "inz"}[r.Intn(4)]
+		// two aliases (of different commands) and two names at the same distance from the word
+		if len(d0.Root.Subs) >= 2 {
+			d0.Root.Subs[0].Aliases = append(d0.Root.Subs[0].Aliases, "ins")
+			d0.Root.Subs[1].Aliases = append(d0.Root.Subs[1].Aliases, "inx")
+		}
+		if len(d0.Root.Subs) >= 4 {
+			d0.Root.Subs[2].Name, d0.Root.Subs[3].Name = "c0a", "c0b"
+		}
 		eval = func() (string, error) {
 			_, b := mk()
 			var args []string
